@@ -32,6 +32,24 @@ func small(v int64) int {
 	return int(v)
 }
 
+// PowerUnit is the unit in which voting powers are rendered (set from the genesis of the replica being run; 1 unless
+// the genesis says otherwise).  A "big unit" genesis (PowerUnit = 10^12) bonds amounts that are multiples of
+// 10^12 x 10^18: its powers are far beyond the 32-bit integers of the specification's tools, and are rendered in units of
+// 10^12 (a power that is not a whole number of units is rendered as -1, like one out of range).  The specification is
+// evaluated with the correspondingly larger stake unit (UnitLimbs in BigNat.tla) and a reward per power unit.
+var PowerUnit int64 = 1
+
+// pw renders a voting power.
+func pw(v int64) int {
+	if PowerUnit > 1 {
+		if v%PowerUnit != 0 {
+			return -1
+		}
+		v /= PowerUnit
+	}
+	return small(v)
+}
+
 // ProjOpts selects the parts of the projection.
 type ProjOpts struct {
 	EVM bool // include contract storage/code digests (deep copy of the state DB: slower)
@@ -64,7 +82,7 @@ func Project(a *App, kr *Keyring, opts ProjOpts) J {
 	var frozen []J
 	vv.Stake.VerifFrozenLedger().VerifConsensusView(func(k ledger.LedgerKey, s *stake.Stake) {
 		frozen = append(frozen, J{"key": kr.Tok(k[:]), "id": kr.Tok(s.TxHash), "from": kr.Name(s.From), "to": kr.Name(s.To),
-			"pow": small(s.Power), "refund": small(s.RefundHeight)})
+			"pow": pw(s.Power), "refund": small(s.RefundHeight)})
 	})
 	out["frozen"] = orEmpty(frozen)
 
@@ -103,7 +121,7 @@ func Project(a *App, kr *Keyring, opts ProjOpts) J {
 	out["vol"] = J{
 		"lastVals":  projPowers(sv.LastValidators, kr),
 		"allDelegs": projPowers(sv.AllDelegatees, kr),
-		"limiter": J{"on": sv.LimiterOn, "base": small(sv.LimiterBase), "updated": small(sv.LimiterUpdated),
+		"limiter": J{"on": sv.LimiterOn, "base": pw(sv.LimiterBase), "updated": pw(sv.LimiterUpdated),
 			"objs": projPowers(sv.LimiterObjs, kr)},
 		"rwdHash": kr.Tok(sv.LastRwdHash), "evmRoot": kr.Tok(ev.LastRootHash), "evmHeight": small(ev.LastBlockHeight),
 		"gasPool": LimbsU64(ev.GasPool),
@@ -136,7 +154,7 @@ func orEmpty(l []J) []J {
 func projPowers(ps []stake.VerifPower, kr *Keyring) []J {
 	out := []J{}
 	for _, p := range ps {
-		out = append(out, J{"v": kr.Name(p.Addr), "pow": small(p.Power)})
+		out = append(out, J{"v": kr.Name(p.Addr), "pow": pw(p.Power)})
 	}
 	return out
 }
@@ -161,7 +179,7 @@ func clip(s string) string {
 }
 
 func projStake(s *stake.Stake, kr *Keyring) J {
-	return J{"id": kr.Tok(s.TxHash), "from": kr.Name(s.From), "to": kr.Name(s.To), "pow": small(s.Power),
+	return J{"id": kr.Tok(s.TxHash), "from": kr.Name(s.From), "to": kr.Name(s.To), "pow": pw(s.Power),
 		"start": small(s.StartHeight), "refund": small(s.RefundHeight)}
 }
 
@@ -176,7 +194,7 @@ func projDelegatee(d *stake.Delegatee, kr *Keyring) J {
 			missed = append(missed, small(h))
 		}
 	}
-	return J{"self": small(d.SelfPower), "total": small(d.TotalPower), "slashed": small(d.SlashedPower), "stakes": stakes,
+	return J{"self": pw(d.SelfPower), "total": pw(d.TotalPower), "slashed": pw(d.SlashedPower), "stakes": stakes,
 		"missed": missed, "pub": len(d.PubKey)}
 }
 
@@ -188,18 +206,18 @@ func projReward(r *stake.Reward) J {
 func projProposal(p *proposal.GovProposal, kr *Keyring) J {
 	voters := J{}
 	for _, v := range p.Voters {
-		voters[kr.Name(v.Addr)] = J{"pow": small(v.Power), "choice": int(v.Choice)}
+		voters[kr.Name(v.Addr)] = J{"pow": pw(v.Power), "choice": int(v.Choice)}
 	}
 	opts := []J{}
 	for _, o := range p.Options {
-		opts = append(opts, J{"doc": kr.Tok(sha(o.Option())), "votes": small(o.Votes())})
+		opts = append(opts, J{"doc": kr.Tok(sha(o.Option())), "votes": pw(o.Votes())})
 	}
 	major := None()
 	if p.MajorOption != nil {
-		major = Some(J{"doc": kr.Tok(sha(p.MajorOption.Option())), "votes": small(p.MajorOption.Votes())})
+		major = Some(J{"doc": kr.Tok(sha(p.MajorOption.Option())), "votes": pw(p.MajorOption.Votes())})
 	}
 	return J{"start": small(p.StartVotingHeight), "end": small(p.EndVotingHeight), "apply": small(p.ApplyingHeight),
-		"total": small(p.TotalVotingPower), "majority": small(p.MajorityPower), "optType": int(p.OptType),
+		"total": pw(p.TotalVotingPower), "majority": pw(p.MajorityPower), "optType": int(p.OptType),
 		"voters": voters, "opts": opts, "major": major}
 }
 
@@ -251,6 +269,9 @@ func GovDocFields(doc []byte, all bool) J {
 		}
 		if !all && n.Sign() == 0 {
 			continue
+		}
+		if f == "rewardPerPower" && PowerUnit > 1 {
+			n.Mul(n, big.NewInt(PowerUnit)) // per rendered unit of power
 		}
 		if govLimbFields[f] {
 			out[f] = LimbsBig(n)
